@@ -68,6 +68,11 @@ def enumerate_cases(tier):
                         yield {'v': r, 'n': N, 'width': w, 'indent': 4}
 
 
+def vtypes_keys():
+    from .. import vtypes
+    return set(vtypes.SUBCLASSES)
+
+
 def fixed_cases():
     for kind in ('list', 'tuple', 'set', 'fset', 'dict'):
         for ln in (999, 1000, 1001, 1200):
@@ -82,6 +87,14 @@ def fixed_cases():
             yield {'v': [kind, big_set[1]], 'n': n, 'width': 40, 'indent': 4, 'sort': True}
         yield {'v': ['list', [big_set, ['dict', [[['int', 3], big_set], [['int', 1], ['int', 0]], [['int', 2], ['int', 0]]]]]], 'n': n, 'width': 40, 'indent': 4, 'sort': True}
     inner = ['list', [['int', 1], ['int', 2], ['int', 3], ['int', 4]]]
+    for n in (1, 2, 3, 4, None):
+        for base, payload in (('list', inner), ('tuple', ['tuple', inner[1]]), ('set', ['set', inner[1]]), ('frozenset', ['fset', inner[1]]),
+                              ('dict', ['dict', [[['int', i], inner] for i in range(3)]])):
+            for variant in ('plain', 'repr'):
+                if (base, variant) in vtypes_keys():
+                    yield {'v': ['sub', base, variant, payload], 'n': n, 'width': 40, 'indent': 4}
+                    kind = 'cmt' if base == 'frozenset' else 'tcmt'      # (the frozenset printer takes no trailing comment: documented warning)
+                    yield {'v': ['list', [['sub', base, variant, payload], [kind, 'user note', ['sub', base, variant, payload]]]], 'n': n, 'width': 20, 'indent': 4}
     for n in (1, 2, 4, None):
         for w in (20, 79):
             for kind in ('tcmt', 'cmt'):
@@ -117,15 +130,22 @@ def strategy(tier):
             st.lists(st.tuples(hashable, ch).map(list), max_size=6).map(lambda kv: ['dict', kv]),
         )
     def ext_calls(ch):
-        # containers reached through call-style printers (one or several arguments, keyword arguments)
+        # containers reached through call-style printers (one or several arguments, keyword arguments) and instances of
+        # user subclasses of the containers
         return st.one_of(
             ext(ch),
+            st.tuples(st.sampled_from(['plain', 'repr']), st.lists(ch, max_size=5)).map(lambda p: ['sub', 'list', p[0], ['list', p[1]]]),
+            st.tuples(st.sampled_from(['plain', 'str']), st.lists(ch, max_size=5)).map(lambda p: ['sub', 'tuple', p[0], ['tuple', p[1]]]),
+            st.tuples(st.sampled_from(['plain', 'repr']), st.lists(st.tuples(hashable, ch).map(list), max_size=5)).map(
+                lambda p: ['sub', 'dict', p[0], ['dict', p[1]]]),
+            st.lists(hashable, max_size=5).map(lambda xs: ['sub', 'set', 'plain', ['set', xs]]),
+            st.lists(hashable, max_size=5).map(lambda xs: ['sub', 'frozenset', 'plain', ['fset', xs]]),
             st.tuples(st.sampled_from(['box', 'alt']), st.lists(ch, max_size=3),
                       st.lists(st.tuples(st.sampled_from(['a', 'b']), ch).map(list), max_size=2, unique_by=lambda p: p[0])).map(
                 lambda p: ['call', p[0], p[1], p[2]]),
         )
     plain = st.recursive(leaf, ext, max_leaves=30).filter(lambda r: r[0] in ('list', 'tuple', 'set', 'fset', 'dict'))
-    with_calls = st.recursive(leaf, ext_calls, max_leaves=20).filter(lambda r: r[0] in ('list', 'tuple', 'dict', 'call'))
+    with_calls = st.recursive(leaf, ext_calls, max_leaves=20).filter(lambda r: r[0] in ('list', 'tuple', 'dict', 'call', 'sub'))
     def decorate(p):
         # comment() / trailing_comment() on containers that are list elements, dict values or the root
         # (texts without digits; a comment neither hides nor adds a truncation notice)
@@ -236,7 +256,7 @@ def truncate(v, N, counts, level=0, trunc_levels=None, sort=False):
         # a call-style object is not a container: its arguments are all shown, each truncated on its own
         return t(*[truncate(a, N, counts, level + 1, trunc_levels, sort) for a in v.args],
                  **{k: truncate(a, N, counts, level + 1, trunc_levels, sort) for k, a in v.kwargs.items()})
-    if t in (list, tuple, set, frozenset):
+    if isinstance(v, (list, tuple, set, frozenset)):          # subclass instances included: Sub([first N elements])
         items = list(v)
         if len(items) > N:
             counts.append(len(items) - N)
@@ -244,7 +264,7 @@ def truncate(v, N, counts, level=0, trunc_levels=None, sort=False):
                 trunc_levels.append(level)
         kept = [truncate(x, N, counts, level + 1, trunc_levels, sort) for x in items[:N]]
         return t(kept)
-    if t is dict:
+    if isinstance(v, dict):
         keys = list(v.keys())
         if sort == 'sorted' and len(keys) > 1:
             if not eqv.mutually_comparable(keys):
@@ -257,7 +277,7 @@ def truncate(v, N, counts, level=0, trunc_levels=None, sort=False):
         out = {}
         for k in keys[:N]:
             out[truncate(k, N, counts, level + 1, trunc_levels, sort)] = truncate(v[k], N, counts, level + 1, trunc_levels, sort)
-        return out
+        return out if t is dict else t(out)
     return v
 
 
